@@ -21,11 +21,12 @@ Record pcm := mk_pcm {
   pm_kind : Z;        (* member.kind: stiffness of the member's type, not influenced by arrays *)
   pm_isdyn : bool;    (* member.is_dynamic: bound and not size *)
   pm_greedy : bool;   (* member.greedy *)
-  pm_nosize_arr : bool (* member.is_array and not member.size *)
+  pm_nosize_arr : bool; (* member.is_array and not member.size *)
+  pm_optional : bool   (* member.optional *)
 }.
 
 Definition pm_set_align (m : pcm) (a : Z) : pcm :=
-  mk_pcm (pm_size m) a (pm_kind m) (pm_isdyn m) (pm_greedy m) (pm_nosize_arr m).
+  mk_pcm (pm_size m) a (pm_kind m) (pm_isdyn m) (pm_greedy m) (pm_nosize_arr m) (pm_optional m).
 
 (* evaluate_struct_size.is_member_dynamic *)
 Definition pm_member_dynamic (m : pcm) : bool :=
@@ -46,12 +47,12 @@ Section Pc.
     let a := match t with TByte => pc_byte_size | _ => alignT t end in
     let k := kindT t in
     match fst f with
-    | FPlain => mk_pcm s a k false false false
-    | FOpt => let a' := pc_opt_alignment a in mk_pcm (pc_opt_size s a') a' k false false false
-    | FFixed n => mk_pcm (pc_array_size s n) a k false false false
-    | FLimited n _ => mk_pcm (pc_array_size s n) a k false false false
-    | FBound _ => mk_pcm (pc_array_size s 0) a k true false true
-    | FGreedy => mk_pcm (pc_array_size s 0) a k false true true
+    | FPlain => mk_pcm s a k false false false false
+    | FOpt => let a' := pc_opt_alignment a in mk_pcm (pc_opt_size s a') a' k false false false true
+    | FFixed n => mk_pcm (pc_array_size s n) a k false false false false
+    | FLimited n _ => mk_pcm (pc_array_size s n) a k false false false false
+    | FBound _ => mk_pcm (pc_array_size s 0) a k true false true false
+    | FGreedy => mk_pcm (pc_array_size s 0) a k false true true false
     end.
 End Pc.
 
@@ -105,7 +106,7 @@ Definition pc_struct_layout (ms0 : list pcm) : Z * Z * list Z :=
          members 0..n-2; drop the first *)
       let padding := pc_final_padding alignment bs in
       let p_last := if existsb pm_member_dynamic ms
-                    then (if pm_align last <? alignment then - alignment else 0)
+                    then (if (pm_align last <? alignment) || pm_optional last then - alignment else 0)
                     else padding in
       (bs + padding, alignment, tl ps ++ [p_last])
   end.
